@@ -402,11 +402,17 @@ func (ex *Exec) timeFormat(t TimeV, layout string) *Str {
 		}
 	}
 	var y, m, d, h, mi, s *smt.Term
+	yearDigits := 4
 	if needDate {
 		y, m, d = ex.timeYMD(t)
 		// years outside 0..9999 print differently
+		yearDigits = 4
 		if !ex.branch("time-year-4digit", b.And(b.Le(ex.k(0), y), b.Le(y, ex.k(9999)))) {
-			panic(ex.unsupported("time.Format with a year outside 0..9999"))
+			// Go prints a year beyond 9999 with all its digits; five-digit years are modelled, the rest is not
+			if !ex.branch("time-year-5digit", b.And(b.Le(ex.k(10000), y), b.Le(y, ex.k(99999)))) {
+				panic(ex.unsupported("time.Format with a year outside 0..99999"))
+			}
+			yearDigits = 5
 		}
 	}
 	if needTime {
@@ -415,7 +421,7 @@ func (ex *Exec) timeFormat(t TimeV, layout string) *Str {
 	for _, tk := range toks {
 		switch tk {
 		case "2006":
-			r.b = append(r.b, ex.padInt(y, 4)...)
+			r.b = append(r.b, ex.padInt(y, yearDigits)...)
 		case "01":
 			r.b = append(r.b, ex.padInt(m, 2)...)
 		case "02":
@@ -459,7 +465,10 @@ func (ex *Exec) timeFormat(t TimeV, layout string) *Str {
 			r.b = append(r.b, ex.k(int64(tk[4])))
 		}
 	}
-	r.tag = &fmtTag{t: t, layout: layout}
+	if yearDigits == 4 {
+		// (a five-digit year does not parse back with the layout: the text goes through the real time.Parse)
+		r.tag = &fmtTag{t: t, layout: layout}
+	}
 	return r
 }
 
